@@ -109,3 +109,14 @@ def tlv_end(d, o):
     """offset just after the definite-length TLV whose header starts at o (whether or not the contents
     are all present in d)"""
     return tag_end(d, o) + len_hdr_size(d, tag_end(d, o)) + len_value(d, tag_end(d, o))
+
+
+def uninterpreted(f):
+    return f
+
+
+@uninterpreted
+def accepts(type_id, data, offset) -> Bool:
+    """the BER type object `type_id` recognises the identifier octets at data[offset:] as its own (ghost predicate:
+    each concrete decode defines it for its class; natively not evaluated)"""
+    return True
